@@ -333,6 +333,36 @@ def run(ctx: Ctx):
                       {"thrown": nbig, "seed": seedb, "survivors": len(tb), "row": r0, "stored_numPEs": float(tb["numPEs"][r0]),
                        "recomputed_numPEs": float(pe[list(rows).index(r0)]), "beta_rad": float(tb["beta_rad"][r0]), "altDec": float(tb["altDec"][r0]),
                        "showerEnergy": float(tb["showerEnergy"][r0])})
+    # (g') a high-energy run under the monthly cloud map (some taus decay above the 20 km window, ground spots under different
+    # cloud tops): the optical columns of a row must be what the optical stage gives for that row ALONE
+    cfgh = make_cfg("Diffuse", "mono", "map", True, False, 525.0, 300, month=int(rng.integers(1, 13)))
+    cfgh.simulation.spectrum = __import__("nuspacesim").config.Simulation.MonoSpectrum(log_nu_energy=float(rng.choice([10.5, 11.0, 11.5])))
+    seedh = int(rng.integers(1, 2 ** 31))
+    th = run_compute(cfgh, seedh, "synchronous")
+    if len(th) and "numPEs" in th.colnames:
+        ah = np.asarray(th["altDec"])
+        out_h = np.nonzero((ah < 0) | (ah > 20))[0]
+        ctx.count("high-energy-map-run-out-of-window-rows", len(out_h))
+        after = np.nonzero(np.arange(len(th)) > (out_h[0] if len(out_h) else len(th)))[0]
+        rows_h = np.unique(np.concatenate([rng.integers(0, len(th), 25), after[:25]])).astype(int)
+        eas_h = EAS(cfgh)
+        cl_h = CloudTopHeight(cfgh)
+        badh = []
+        with dask.config.set(scheduler="synchronous"):
+            for r in rows_h:
+                pe1, ct1 = eas_h(np.asarray(th["beta_rad"])[r:r + 1], ah[r:r + 1], np.asarray(th["showerEnergy"])[r:r + 1],
+                                 np.asarray(th["init_lat"])[r:r + 1], np.asarray(th["init_lon"])[r:r + 1], cloudf=cl_h)
+                if not (close(float(pe1[0]), float(th["numPEs"][r]), 1e-6, 1e-12) and close(float(ct1[0]), float(th["costhetaChEff"][r]), 1e-9)):
+                    badh.append((int(r), float(pe1[0])))
+        ctx.case(("high-energy-map-run", seedh), None, n=len(rows_h))
+        ctx.count("high-energy-map-run-rows-rechecked", len(rows_h))
+        if badh:
+            r0, pe0 = badh[0]
+            ctx.violation("compute", "optical-columns-not-of-their-row",
+                          f"under the cloud map, numPEs/costhetaChEff of {len(badh)} of {len(rows_h)} sampled rows are not what the optical stage gives for that row alone (first: row {r0})",
+                          {"cloud_model": cfgh.simulation.cloud_model.model_dump(), "log_nu_energy": float(cfgh.simulation.spectrum.log_nu_energy), "thrown": 300, "seed": seedh,
+                           "rows_outside_the_window": int(len(out_h)), "row": r0, "stored_numPEs": float(th["numPEs"][r0]), "recomputed_numPEs": pe0,
+                           "altDec": float(ah[r0]), "init_lat": float(th["init_lat"][r0]), "init_lon": float(th["init_lon"][r0])})
     # (e) zero survivors
     for mode in ("Diffuse", "Target"):
         cfg0 = make_cfg(mode, "mono", "none", True, True, 525.0, 0)
